@@ -65,7 +65,7 @@ def gen_props(rng, U: Universe, cls: str, p_set: float = 0.7, hostile: float = 0
     for f in U.prop_fields(cls):
         if not f.init:
             continue
-        if f.default is None or rng.random() < p_set:
+        if (f.default is None and f.factory is None) or rng.random() < p_set:
             out[f.name] = gen_value(rng, U, f, hostile)
     return out
 
